@@ -22,6 +22,7 @@ const W_FAULT: u64 = 32;
 const W_QUEUE_FULL_WAIT: u64 = 64;
 const W_CANCELLED: u64 = 128;
 const W_COLLIDED: u64 = 256;
+const W_SAME_ID_AGAIN: u64 = 512;
 
 #[derive(Clone, Debug)]
 struct Req {
@@ -44,6 +45,9 @@ struct Scn {
     /// the responder side opens a stream at the same moment, and its generator draws the very id the requester's
     /// generator drew for the first bind request (a Connect arrives for an id held by a pending bind request)
     collide: bool,
+    /// the requests are issued one after the other by one task, and the requester's generator draws the SAME flow id
+    /// for each (the id is free again once the previous request has resolved); the responder answers each at once
+    sequential_same_id: bool,
 }
 
 #[derive(Clone, Copy, Debug, PartialEq, Eq)]
@@ -66,14 +70,31 @@ fn req_pool() -> Vec<Req> {
 
 fn exec(sc: &Scn, render: bool) -> RunOutput {
     // A = requester, B = responder
-    let a = SideCfg { opts: opts(2, 1).bind_buffer_size(if sc.both_sides { 2 } else { 0 }), rng: if sc.collide { vec![5] } else { vec![] } };
+    let a = SideCfg { opts: opts(2, 1).bind_buffer_size(if sc.both_sides { 2 } else { 0 }), rng: if sc.collide { vec![5] } else if sc.sequential_same_id { vec![5; 8] } else { vec![] } };
     let b = SideCfg { opts: opts(2, 1).bind_buffer_size(sc.buf), rng: if sc.collide { vec![5] } else { vec![] } };
     let mut w = World::two(UNBOUNDED_CAP, &a, &b);
-    for (i, r) in sc.reqs.iter().enumerate() {
-        w.spawn_bind_requester(0, i as u32, r.btype, r.host.clone(), r.port);
+    if sc.sequential_same_id {
+        let mux = w.mux(0);
+        let obs = w.obs.clone();
+        let reqs = sc.reqs.clone();
+        obs.borrow_mut().begin("bindseq.a");
+        w.sim.spawn("bindseq.a", crate::apps::group_of(0), async move {
+            for (i, r) in reqs.iter().enumerate() {
+                let bt = crate::apps::btype_of(r.btype);
+                let res = mux.request_bind(&r.host, r.port, bt).await;
+                obs.borrow_mut().ev(Ev::BindResult { side: 0, n: i as u32, res: res.map_err(|e| format!("{e:?}")) });
+            }
+            obs.borrow_mut().end("bindseq.a");
+        });
+        // every request is answered as soon as it is seen
+        w.spawn_bind_responder(1, 0, vec![], vec![sc.answers[0]]);
+    } else {
+        for (i, r) in sc.reqs.iter().enumerate() {
+            w.spawn_bind_requester(0, i as u32, r.btype, r.host.clone(), r.port);
+        }
+        // the responder collects all requests first, then answers in the scripted order
+        w.spawn_bind_responder(1, sc.reqs.len(), sc.order.clone(), sc.answers.clone());
     }
-    // the responder collects all requests first, then answers in the scripted order
-    w.spawn_bind_responder(1, sc.reqs.len(), sc.order.clone(), sc.answers.clone());
     if sc.both_sides {
         w.spawn_bind_requester(1, 100, 3, b"back".to_vec(), 1);
         w.spawn_bind_responder(0, 1, vec![0], vec![BindAnswer::Accept]);
@@ -264,6 +285,9 @@ fn exec(sc: &Scn, render: bool) -> RunOutput {
             }
         }
     }
+    if sc.sequential_same_id && ids.len() >= 2 && ids.iter().all(|i| *i == Some(5)) {
+        wit |= W_SAME_ID_AGAIN;
+    }
     // answers out of arrival order were exercised?
     if sc.order.windows(2).any(|p| p[0] > p[1]) {
         wit |= W_OUT_OF_ORDER;
@@ -360,7 +384,7 @@ pub fn run(args: &Args) -> Report {
     let mut cases = Vec::new();
     let mut add = |sc: Scn| {
         let label = format!(
-            "{} request(s) answers={:?} order={:?} bind_buffer={} traffic={} both_sides={} faults={} id_collision_with_peer_open={}",
+            "{} request(s) answers={:?} order={:?} bind_buffer={} traffic={} both_sides={} faults={} id_collision_with_peer_open={} sequential_same_id={}",
             sc.reqs.len(),
             sc.answers,
             sc.order,
@@ -368,7 +392,8 @@ pub fn run(args: &Args) -> Report {
             sc.with_traffic,
             sc.both_sides,
             sc.faults,
-            sc.collide
+            sc.collide,
+            sc.sequential_same_id
         );
         cases.push(Case { try_unbounded: false, max_k: u32::MAX, label, exec: Box::new(move |r| exec(&sc, r)) });
     };
@@ -384,16 +409,22 @@ pub fn run(args: &Args) -> Report {
                     if !thorough && n == 3 && buf == 4 && code % 3 != 0 {
                         continue;
                     }
-                    add(Scn { reqs: pool[..n].to_vec(), answers: answers.clone(), order: order.clone(), buf, with_traffic: n == 2 && code % 5 == 0, both_sides: thorough && n == 2 && code % 7 == 0, faults: false, collide: false });
+                    add(Scn { reqs: pool[..n].to_vec(), answers: answers.clone(), order: order.clone(), buf, with_traffic: n == 2 && code % 5 == 0, both_sides: thorough && n == 2 && code % 7 == 0, faults: false, collide: false, sequential_same_id: false });
                 }
             }
             if n <= 2 {
-                add(Scn { reqs: pool[..n].to_vec(), answers: answers.clone(), order: (0..n).collect(), buf: 1, with_traffic: false, both_sides: false, faults: false, collide: true });
-                add(Scn { reqs: pool[..n].to_vec(), answers: answers.clone(), order: (0..n).collect(), buf: 1, with_traffic: false, both_sides: false, faults: true, collide: false });
+                add(Scn { reqs: pool[..n].to_vec(), answers: answers.clone(), order: (0..n).collect(), buf: 1, with_traffic: false, both_sides: false, faults: false, collide: true, sequential_same_id: false });
+                add(Scn { reqs: pool[..n].to_vec(), answers: answers.clone(), order: (0..n).collect(), buf: 1, with_traffic: false, both_sides: false, faults: true, collide: false, sequential_same_id: false });
+            }
+        }
+        // one task issues the requests one after the other and draws the same flow id every time
+        if n >= 2 {
+            for a in [BindAnswer::Accept, BindAnswer::Reject, BindAnswer::DropIt] {
+                add(Scn { reqs: pool[..n].to_vec(), answers: vec![a; n], order: (0..n).collect(), buf: 1, with_traffic: false, both_sides: false, faults: false, collide: false, sequential_same_id: true });
             }
         }
         // binds disabled on the responder
-        add(Scn { reqs: pool[..n].to_vec(), answers: vec![BindAnswer::Accept; n], order: (0..n).collect(), buf: 0, with_traffic: n == 2, both_sides: false, faults: false, collide: false });
+        add(Scn { reqs: pool[..n].to_vec(), answers: vec![BindAnswer::Accept; n], order: (0..n).collect(), buf: 0, with_traffic: n == 2, both_sides: false, faults: false, collide: false, sequential_same_id: false });
     }
     let plan = Plan {
         ks: if thorough { vec![0, 1, 2, 3, 4, 5] } else { vec![0, 1, 2] },
@@ -401,11 +432,11 @@ pub fn run(args: &Args) -> Report {
         fault: 1,
         total_wall: Duration::from_secs(if thorough { 1500 } else { 50 }),
         max_execs_per_case: 500_000,
-        required_witnesses: W_TRUE | W_FALSE | W_NEVER_PENDING | W_OUT_OF_ORDER | W_DISABLED | W_FAULT | W_QUEUE_FULL_WAIT | W_CANCELLED | W_COLLIDED,
+        required_witnesses: W_TRUE | W_FALSE | W_NEVER_PENDING | W_OUT_OF_ORDER | W_DISABLED | W_FAULT | W_QUEUE_FULL_WAIT | W_CANCELLED | W_COLLIDED | W_SAME_ID_AGAIN,
         adaptive: thorough,
-        witness_names: &[("resolved_true", W_TRUE), ("resolved_false", W_FALSE), ("unanswered_stays_pending", W_NEVER_PENDING), ("answers_out_of_arrival_order", W_OUT_OF_ORDER), ("binds_disabled", W_DISABLED), ("connection_end_injected", W_FAULT), ("more_requests_than_bind_buffer", W_QUEUE_FULL_WAIT), ("request_abandoned_by_requester", W_CANCELLED), ("peer_open_collides_with_pending_bind_id", W_COLLIDED)],
+        witness_names: &[("resolved_true", W_TRUE), ("resolved_false", W_FALSE), ("unanswered_stays_pending", W_NEVER_PENDING), ("answers_out_of_arrival_order", W_OUT_OF_ORDER), ("binds_disabled", W_DISABLED), ("connection_end_injected", W_FAULT), ("more_requests_than_bind_buffer", W_QUEUE_FULL_WAIT), ("request_abandoned_by_requester", W_CANCELLED), ("peer_open_collides_with_pending_bind_id", W_COLLIDED), ("sequential_requests_drew_the_same_id", W_SAME_ID_AGAIN)],
     };
-    rep.rule = "psim: requester issues 1..3 concurrent request_bind (types 1/3, hosts {1 B, empty, 255 B}, ports {0, 8080, 65535}); the responder application (bind_buffer_size 1 or 4, or binds disabled) collects the requests and answers them following EVERY answer vector over {accept, reject, drop the request, never answer} in (every / selected) permutation order; optional stream + datagram exchange alongside, optional request in the opposite direction, optional stream opened by the responder side whose generator draws the id of the pending first request (Connect on an id held by a bind request: must be rejected, the bind unaffected, the stream must come up on a fresh id), optional connection end (cut both, drop either Multiplexor) or abandonment of the first request by its requester (future dropped) at every point; every schedule <= k deviations. Oracle: each request resolves at most once; true iff the peer application accepted that very flow id; false iff it rejected/dropped it or binds are disabled; unanswered requests stay pending while the connection is up; after a connection end only false/Closed; the peer application is shown exactly type/host/port/id of a Bind frame on the wire and every request; resolved requests leave no slot behind".into();
+    rep.rule = "psim: requester issues 1..3 concurrent request_bind (types 1/3, hosts {1 B, empty, 255 B}, ports {0, 8080, 65535}); the responder application (bind_buffer_size 1 or 4, or binds disabled) collects the requests and answers them following EVERY answer vector over {accept, reject, drop the request, never answer} in (every / selected) permutation order; optional stream + datagram exchange alongside, optional request in the opposite direction, optional stream opened by the responder side whose generator draws the id of the pending first request (Connect on an id held by a bind request: must be rejected, the bind unaffected, the stream must come up on a fresh id), optional sequential issue of the requests by one task whose generator draws the same flow id every time (each request must still get its own answer), optional connection end (cut both, drop either Multiplexor) or abandonment of the first request by its requester (future dropped) at every point; every schedule <= k deviations. Oracle: each request resolves at most once; true iff the peer application accepted that very flow id; false iff it rejected/dropped it or binds are disabled; unanswered requests stay pending while the connection is up; after a connection end only false/Closed; the peer application is shown exactly type/host/port/id of a Bind frame on the wire and every request; resolved requests leave no slot behind".into();
     rep.assumptions = vec!["flow ids are paired through the Bind frames seen on the wire (reference decoder)".into()];
     run_cases(args, &mut rep, cases, &plan);
     rep
